@@ -103,7 +103,7 @@ def model : Drv St where
       | some (cs, os) => ({ s with algoC := cs, algoO := os }, ["algo-set"])
       | none => (s, ["bad-op"])
     | "ev" :: rest =>
-      match parseEvent rest with
+      match resolveEvent s.eng.eng rest with
       | none => (s, ["bad-op"])
       | some ev =>
         let ev := fixExchange s.eng.eng ev
